@@ -723,17 +723,22 @@ func c07Shard(prop string) func(tier string, shard, n int) *CustomResult {
 
 func c07ShardProp(prop, tier string, shard, n int) *CustomResult {
 	run := &c07Run{nontrivial: map[string]bool{}, outcomes: map[string]bool{}, fpSeen: map[string]int{}, counts: map[string]int{}}
-	i := 0
+	i, skipped := 0, 0
+	deadline := shardDeadline(tier)
 	c07Worlds(tier == "thorough", func(w c07World) {
 		i++
 		if i%n == shard {
+			if time.Now().After(deadline) {
+				skipped++
+				return
+			}
 			run.runWorld(w, prop)
 		}
 	})
 	if len(run.samples) == 0 {
 		run.samples = append(run.samples, c07World{Tree: "flat", AskQueue: "root.a", AskSize: 2, AskAPO: true, Allocs: []c07Alloc{{Queue: "root.b", Node: "n1", Size: 2}}})
 	}
-	cov := map[string]interface{}{"evaluations": run.evals, "distinct_nontrivial": len(run.nontrivial), "worlds_with_victims": run.withVictims, "samples": run.samples, "exhaustive": true}
+	cov := map[string]interface{}{"evaluations": run.evals, "distinct_nontrivial": len(run.nontrivial), "worlds_with_victims": run.withVictims, "samples": run.samples, "exhaustive": skipped == 0, "worlds_not_run_time_budget": skipped}
 	for k, c := range run.counts {
 		if strings.HasPrefix(k, "C07.") || strings.HasPrefix(k, "C08.") {
 			cov["rule_"+k] = c
